@@ -293,7 +293,8 @@ Definition nd_fvec : list (string * need) :=
 
 Definition nd_list : list (string * need) :=
   [ ("LIST.ADD", [(FIvec, 1)]); ("LIST.REMOVE", [(FInt, 1); (FCode, 1)]); ("LIST.GET", [(FInt, 1); (FCode, 1)]);
-    ("LIST.SET", [(FInt, 1); (FIvec, 1)]); ("LIST.BVAL", [(FInt, 2); (FCode, 1)]); ("LIST.IVAL", [(FInt, 2); (FCode, 1)]);
+    (* without a record to replace, the items taken for the new record are lost, nothing is pushed *)
+    ("LIST.SET", [(FInt, 1); (FIvec, 1); (FCode, 1)]); ("LIST.BVAL", [(FInt, 2); (FCode, 1)]); ("LIST.IVAL", [(FInt, 2); (FCode, 1)]);
     ("LIST.FVAL", [(FInt, 2); (FCode, 1)]) ].
 
 Definition nd_io : list (string * need) :=
